@@ -555,6 +555,11 @@ func (s *Server) handlePostTx(w http.ResponseWriter, r *http.Request) {
 
 	// Apply transaction to database.
 	if err := db.ApplyLTXNoLock(ltxPath, true); err != nil {
+		// A failure once the database is being written is fatal. If we get
+		// here nothing has been applied and the sender is told so: withdraw
+		// the transaction file so that the refused transaction is not applied
+		// by the recovery of the next start.
+		_ = s.store.OS.Remove("POSTTX:LTX", ltxPath)
 		Error(w, r, fmt.Errorf("cannot apply ltx: %s", err), http.StatusInternalServerError)
 		return
 	}
